@@ -9,7 +9,14 @@
 // draws over {0,1,2^31,2^32-2,2^32-1} (one draw per stored row, as wrs.go takes
 // them), shuffle draws defaulted and then varied one at a time; compiled with
 // the real compilers and asked through the real handler (CDB; RocksDB v2 for
-// small sets) as A, AAAA, MX (additional) and referral (glue) queries.
+// small sets) as A, AAAA, MX (additional) and referral (glue) queries; the
+// additional section also in the shapes in which one target is named by two
+// records (two MX preferences, two NS records, two HTTPS records of one
+// owner), the glue name is the queried name, or one RRset names several targets.
+// Part 1b (cache.go): the same oracle with the response cache enabled and
+// weighted answers cached: from an empty cache every ordered pair of distinct
+// requests (client location x family x maxAnswer, additional-section shapes),
+// served first, then, first again.
 // Part 2 (prop.go): win probabilities of the real Wrs.Add/ARecord bracketed
 // rigorously by evaluating the two extreme corners of every cell of an N^n grid
 // over the draw space.
@@ -124,15 +131,18 @@ func planUnits(thorough bool) (units []unit, bounds map[string]interface{}) {
 			if n <= 3 || (thorough && n == 4) {
 				addPlan(e2ePlan{set: set, backend: dnsfix.CDB, ms: cms, cache: true})
 			}
-			if n <= 1 || (thorough && n == 2) {
+			if n <= 2 {
 				addPlan(e2ePlan{set: set, backend: dnsfix.RDBv2, ms: cms, cache: true})
 			}
 		}
 	}
+	shapes := fmt.Sprintf("additional-section shapes %v per family 4 and 6 (and both families at one target for CDB sets of size <= 2, RocksDB size 1) plus mxmulti (sets of size <= %d)", addlSects, multiMaxSize)
 	if thorough {
-		bounds["e2e_bounds"] = "CDB: sets of size 1-4: maxAnswer 1..8, A and AAAA, clients aa and unlocated, additional-section slots, shuffle variation; size 5 (all 792 sets): maxAnswer 1..8, A (AAAA for untagged sets), client aa, shuffle variation. RocksDB v2: sizes 1-3, RocksDB v1: sizes 1-2 (full configuration)"
+		bounds["e2e_bounds"] = "CDB: sets of size 1-4: maxAnswer 1..8, A and AAAA, clients aa and unlocated, " + shapes + ", shuffle variation; size 5 (all 792 sets): maxAnswer 1..8, A (AAAA for untagged sets), client aa, shuffle variation. RocksDB v2: sizes 1-3, RocksDB v1: sizes 1-2 (full configuration)"
+		bounds["cache_bounds"] = "response cache enabled, WRSTimeout > 0: CDB sets of size 1-4, RocksDB v2 sizes 1-2; requests = {A, AAAA} x {aa, unlocated} x maxAnswer 1..8, plus mx/fam4, ns/fam6 (and mx2/both) x {aa, unlocated} x maxAnswer {1, 8}; every ordered pair of distinct requests x 2 assignments of the two fixed key-draw vectors; 3 responses judged per sequence"
 	} else {
-		bounds["e2e_bounds"] = "CDB: sets of size 1-3: maxAnswer 1..8, A and AAAA, clients aa and unlocated, additional-section slots, shuffle variation; size 4 (all 330 sets): maxAnswer {1,2,4,8}, A, client aa, shuffle variation; size 5: the 56 untagged sets, maxAnswer {1,4}, A. RocksDB v2: sizes 1-2 (maxAnswer {1,2,3,8}, otherwise the full configuration)"
+		bounds["e2e_bounds"] = "CDB: sets of size 1-3: maxAnswer 1..8, A and AAAA, clients aa and unlocated, " + shapes + ", shuffle variation; size 4 (all 330 sets): maxAnswer {1,2,4,8}, A, client aa, shuffle variation; size 5: the 56 untagged sets, maxAnswer {1,4}, A. RocksDB v2: sizes 1-2 (maxAnswer {1,2,3,8}, otherwise the full configuration)"
+		bounds["cache_bounds"] = "response cache enabled, WRSTimeout > 0: CDB sets of size 1-3, RocksDB v2 sizes 1-2; requests = {A, AAAA} x {aa, unlocated} x maxAnswer {1,2,3,8}, plus mx/fam4, ns/fam6 (and mx2/both) x {aa, unlocated} x maxAnswer {1, 8}; every ordered pair of distinct requests x 2 assignments of the two fixed key-draw vectors; 3 responses judged per sequence"
 	}
 	// part 2
 	for n := 2; n <= 3; n++ {
@@ -338,11 +348,13 @@ func main() {
 	r.Set("sched_preemption_bound", schedBound)
 	r.Set("candidate_alphabet", fmt.Sprint(alphabet))
 	r.Set("draw_alphabet", drawAlphabet)
-	r.Set("rule", "part 1: every multiset of candidates over {weight 0,1,2,2^32-1}x{untagged,aa} up to the size bound (see e2e_bounds), declared in a data file (plus records tagged bb that no client may see), compiled by the real compiler, served by the real handler with the scripted source: for every maxAnswer and EVERY sequence of per-row key draws over the 5-value draw alphabet (shuffle draws defaulted, then each varied over the alphabet with keys fixed), A and AAAA answers, MX-target and delegation-glue additional sections are judged: count = min(max, positive-weight visible candidates) per family, addresses subset of the declared visible ones, no repetition, no weight-0 address in a NOERROR response; failing cases are minimised over all candidate sub-sets and reported once. states = (set, client, slot, maxAnswer) configurations + grid cells + scheduler states; nontrivial = evaluations in which at least one visible candidate had to be left out. part 2: for every weight vector, every candidate and every cell of the N^n grid over the draws, the real Wrs.Add/ARecord is evaluated at the cell's two extreme corners; cells won at the worst corner bound P(served) from below, cells won at the best corner from above; the statement's w_i/sum(w) must lie in the bracket (exact integer comparison); a coarse grid is also served through the real handler and compared with the direct selection. part 3: every interleaving within the preemption bound of 2-3 threads taking 2 draws each from rand.New(&lockedSource{...}) over a deliberately non-atomic probe source (and over the runtime source re-seeded through the locked Seed): multiset of values = first n outputs, no race on the underlying state, no deadlock")
+	r.Set("rule", "part 1: every multiset of candidates over {weight 0,1,2,2^32-1}x{untagged,aa} up to the size bound (see e2e_bounds), declared in a data file (plus records tagged bb that no client may see), compiled by the real compiler, served by the real handler with the scripted source: for every maxAnswer and EVERY sequence of key draws over the 5-value draw alphabet, one per draw the code takes (shuffle draws defaulted, then each varied over the alphabet with keys fixed; configurations of more than 6 key draws: the 3-value alphabet {0,2^31,2^32-1}), the address records of the response are judged: A and AAAA answers; additional-section addresses of an MX target (mx), of delegation glue (ns), of a target named by TWO records of the RRset (mx2: two MX preferences, ns2: two NS records, https2: two HTTPS records of one owner), of glue whose name is the queried name (nsself), of the owner of an HTTPS answer (https), and of an MX RRset naming an IPv4-only target twice and an IPv6-only target once (mxmulti); targets declare one family or both, and every candidate set includes those with no visible / no positive-weight candidate. Clauses, per target name and family: count = min(max, positive-weight visible candidates) with max = maxAnswer in the answer section and 1 in the additional section (for https/https2 only the upper bound: the statement demands addresses for NS/MX targets), addresses subset of the declared ones visible to the client and of a family the target declares, no repetition, no weight-0 address in a NOERROR response; a panic or a missing response is a violation too. Failing cases are minimised over all candidate sub-sets (and simpler symbols / draws) and reported once. When the code takes a number of key draws other than one per row of the slot's targets (on the unchanged tree: a target named twice none of whose candidates has a positive weight is selected for twice; RocksDB referrals for located clients) draws are not attributed to candidates: every sequence over the draws actually taken is still enumerated and judged, minimisation is over candidate sets only. part 1b: the same clauses with the response cache enabled and weighted answers cached (see cache_bounds): from an empty cache, every ordered pair of distinct requests is served first, then, first again, and each of the three responses is judged against the maximum, family and client location of ITS OWN request. states = (set, client, slot, maxAnswer) configurations + cache sequences + grid cells + scheduler states; nontrivial = evaluations in which at least one visible candidate had to be left out. part 2: for every weight vector, every candidate and every cell of the N^n grid over the draws, the real Wrs.Add/ARecord is evaluated at the cell's two extreme corners; cells won at the worst corner bound P(served) from below, cells won at the best corner from above; the statement's w_i/sum(w) must lie in the bracket (exact integer comparison); a selection that does not take one draw per candidate, panics or fails is a violation (the bracket then bounds nothing); a coarse grid is also served through the real handler and compared with the direct selection. part 3: every interleaving within the preemption bound of 2-3 threads taking 2 draws each from rand.New(&lockedSource{...}) over a deliberately non-atomic probe source (and over the runtime source re-seeded through the locked Seed): multiset of values = first n outputs, no race on the underlying state, no deadlock")
 	r.Assume = []string{
 		"part 2 relies on the key being monotone in the draw (checked at every evaluated corner pair: a cell won at its worst corner must be won at its best corner); deviations of a selection rule smaller than the reported bracket width are not detected",
 		"a uniform 32-bit draw is assumed for the probabilities (each grid cell has probability exactly N^-n); the quality of math/rand's generator is not examined",
 		"candidate sets beyond the size bound, weights outside {0,1,2,3,10,2^32-1}, draws outside the 5-value alphabet (part 1) are outside the claim; row order inside a store is whatever the real compiler produces (all draw sequences are enumerated, so every assignment of draws to candidates is covered for that order)",
+		"part 1b: cache sequences longer than first/then/first-again, expiry of cached entries (the lifetime is set beyond any run), reloads, and key draws other than the two fixed vectors per request are outside the claim (which address a cached response holds is not judged, only that it is a valid response to the request it is served to); whether a response should have been served from the cache at all is C12/C20's business",
+		"additional-section shapes: at most two records naming one target and at most two distinct targets per response; SVCB answers (the code selects nothing for them) and ANY questions are not explored",
 		"part 3: schedules beyond 3 preemptions and scheduling points other than the lockedSource mutex operations and the probe's explicit point are outside the claim",
 	}
 	r.Finish()
